@@ -13,6 +13,9 @@
 //!         1: client given no --tls-ca (system roots) -> reached
 //!         2: server given a blank client CA        -> 1 if the identity can be built (must fail: 0)
 //!         3: a good client CA, client certificate under root A only (the system store) -> reached (must not be)
+//! case 17 5 cert n: the real server_main with a client CA, identity replaced n times at run time the way an
+//!           operator does it (files rewritten, SIGUSR1 to the process); before and after every reload:
+//!   result per round: reached_with_good_client_cert cert_seen reached_without_client_cert asked
 //! case 17 3 url_host(0 127.0.0.1, 1 localhost) hostname(0 none, 1 localhost, 2 other.example)
 //!           tls_server_name(0 none, 1 localhost, 2 other.example) skip_verify
 //!   the real client (client_main_inner -> ws_connect::handshake) against the TLS listener whose
@@ -354,6 +357,61 @@ async fn blank_case(pki: &Pki, servers: &[Server], c: &[u64]) -> Vec<u64> {
     }
 }
 
+async fn signal_case(pki: &Pki, tag: &str, c: &[u64]) -> Vec<u64> {
+    use rusty_penguin_lib::arg::ServerArgs;
+    let d = pki.d();
+    let (mut cert, n) = (c[0] % 3, c[1]);
+    let (certp, keyp, cap) = (p(d, &format!("sig-{tag}.pem")), p(d, &format!("sig-{tag}.key")), p(d, "clientca.pem"));
+    std::fs::copy(d.join(format!("srv{cert}.pem")), &certp).unwrap();
+    std::fs::copy(d.join(format!("srv{cert}.key")), &keyp).unwrap();
+    let port = TcpListener::bind("127.0.0.1:0").await.unwrap().local_addr().unwrap().port();
+    let args: &'static ServerArgs = Box::leak(Box::new(ServerArgs {
+        host: vec!["127.0.0.1".to_string()],
+        port: vec![port],
+        tls_cert: Some(certp.clone()),
+        tls_key: Some(keyp.clone()),
+        tls_ca: Some(cap),
+        ..Default::default()
+    }));
+    let server = tokio::spawn(rusty_penguin_lib::server::server_main(args));
+    for _ in 0..300 {
+        if TcpStream::connect(("127.0.0.1", port)).await.is_ok() {
+            break;
+        }
+        tokio::time::sleep(Duration::from_millis(10)).await;
+    }
+    let (good_c, good_k) = (p(d, "cli1.pem"), p(d, "cli1.key"));
+    let mut out = vec![];
+    for round in 0..=n {
+        // with the right client certificate
+        let (mut reached, mut seen) = (0u64, 9u64);
+        if let Ok(tcp) = TcpStream::connect(("127.0.0.1", port)).await {
+            if let Ok(mut s) = tls_connect(tcp, "localhost", Some(&good_c), Some(&good_k), None, true).await {
+                seen = s.get_ref().1.peer_certificates().and_then(|v| v.first()).map_or(9, |der| pki.seen(der.as_ref()));
+                reached = u64::from(http_roundtrip(&mut s, true).await);
+            }
+        }
+        // without any client certificate
+        let mut bare = 0u64;
+        if let Ok(tcp) = TcpStream::connect(("127.0.0.1", port)).await {
+            if let Ok(mut s) = tls_connect(tcp, "localhost", None, None, None, true).await {
+                bare = u64::from(http_roundtrip(&mut s, true).await);
+            }
+        }
+        out.extend([reached, seen, bare, asks(port).await]);
+        if round < n {
+            cert = (cert + 1) % 3;
+            std::fs::copy(d.join(format!("srv{cert}.pem")), &certp).unwrap();
+            std::fs::copy(d.join(format!("srv{cert}.key")), &keyp).unwrap();
+            // what an operator does: SIGUSR1 to the server process (this process)
+            let _ = std::process::Command::new("sh").arg("-c").arg(format!("kill -USR1 {}", std::process::id())).status();
+            tokio::time::sleep(Duration::from_millis(200)).await;
+        }
+    }
+    server.abort();
+    out
+}
+
 pub struct Ctx {
     echo_port: u16,
     rt: tokio::runtime::Runtime,
@@ -366,6 +424,12 @@ impl Ctx {
     pub fn new() -> Self {
         let rt = tokio::runtime::Builder::new_multi_thread().worker_threads(4).enable_all().build().unwrap();
         let pki = Pki::new();
+        // SIGUSR1 must never kill the harness: keep a listener registered for the whole run
+        rt.spawn(async {
+            if let Ok(mut s) = tokio::signal::unix::signal(tokio::signal::unix::SignalKind::user_defined1()) {
+                while s.recv().await.is_some() {}
+            }
+        });
         // the "system" root store of this process holds root A only (rustls-native-certs honours SSL_CERT_FILE)
         unsafe { std::env::set_var("SSL_CERT_FILE", p(pki.d(), "rootA.pem")) };
         let servers = rt.block_on(async {
@@ -399,6 +463,10 @@ impl Ctx {
                 self.n.set(self.n.get() + 1);
                 self.rt.block_on(reload_case(&self.pki, &format!("r{}", self.n.get()), &c[1..]))
             }
+            Some(5) if c.len() == 3 && c[2] <= 6 => {
+                self.n.set(self.n.get() + 1);
+                self.rt.block_on(signal_case(&self.pki, &format!("s{}", self.n.get()), &c[1..]))
+            }
             Some(4) if c.len() == 3 && c[1] < 4 => self.rt.block_on(blank_case(&self.pki, &self.servers, &c[1..])),
             Some(3) if c.len() == 5 => self.rt.block_on(name_case(&self.pki, &self.servers[0], self.echo_port, &c[1..])),
             _ => vec![999_999],
@@ -421,6 +489,11 @@ pub fn generate(a: &Args, out: &mut Out) {
                 }
             }
         }
+    }
+    for (cert, n) in [(0u64, 3u64), (2, 2)] {
+        let c = vec![17, 5, cert, n];
+        let r = ctx.run_case(&c[1..]);
+        out.emit(&c, &r);
     }
     for which in 0..4u64 {
         for sk in 0..2u64 {
